@@ -2,16 +2,18 @@
 
 PROPS = {
     "C11": dict(
-        technique="Coq refinement proof (MRU list refines timestamp-LRU map, by simulation + induction over operation sequences) + vm_compute correspondence on the Go cache",
+        technique="Coq refinement proof (MRU list refines timestamp-LRU map, by simulation + induction over operation sequences) + vm_compute correspondence on the Go cache, sequential and concurrent (linearizability of stamped concurrent histories decided by search inside Coq)",
         level_text="Theorems over every operation sequence (capacity, no duplicate key, refinement of the timestamp-LRU specification) "
                    "proved in Coq on a hand-written model of lruSessionCache; the model and the specification are evaluated inside Coq on "
-                   "operation sequences executed by both Go caches (results of every Get, aliasing / live-session damage counters).",
+                   "operation sequences executed by both Go caches (results of every Get, aliasing / live-session damage counters); concurrent use: small histories of three goroutines "
+                   "with start/end stamps from one atomic counter are checked for a linearization against the model and against the abstract LRU by search in Coq, and stress runs for the "
+                   "necessary condition that every hit is an intact session stored under that key.",
         level_note="Trusted: Coq kernel + vm_compute; the model is hand-written and tied to the code only by the correspondence "
                    "(generator quality bounds it); mutex atomicity is assumed for the sequential model.",
-        code_names={1: "lookup-differs-from-LRU-spec", 2: "live-session-altered"},
+        code_names={1: "lookup-differs-from-LRU-spec", 2: "live-session-altered", 3: "concurrent-history-has-no-sequential-explanation", 4: "concurrent-lookup-returned-foreign-or-damaged-session"},
         assumptions=[
-            "each cache method is one atomic step (whole body under the cache mutex); concurrent histories are "
-            "checked against the sequential specification by the harness, the Go scheduler is not modelled",
+            "the theorems are about the sequential object; that each cache method is one atomic step (whole body under the cache mutex) is not proved but tested: "
+            "concurrent histories produced by the Go scheduler are checked for linearizability, the scheduler itself is not modelled",
         ],
         trusted=["verif hook VerifNewSession / VerifMaster / VerifSessionID (tlcp, dtlcp)"],
     ),
